@@ -66,7 +66,7 @@ func genHistoryCase(prop, tier string, r *rand.Rand) *Case {
 			n = 20 + r.IntN(40)
 		}
 	}
-	edits := []string{"node.add", "node.add", "node.delete", "node.delete", "node.setnodes", "fam.setnodes", "ind.setnodes", "doc.addnode", "doc.addindividual",
+	edits := []string{"node.add", "node.add", "node.delete", "node.delete", "node.setnodes", "fam.setnodes", "ind.setnodes", "doc.addnode", "doc.addindividual", "doc.addindividual.dup",
 		"doc.addfamily", "doc.addfamilyhw", "doc.delete", "doc.setnodes", "fam.sethusband", "fam.setwife", "fam.sethusband.nil",
 		"fam.setwife.nil", "fam.sethusbandptr", "fam.setwifeptr", "fam.addchild", "ind.addname", "ind.addbirth", "ind.adddeath", "ind.setsex"}
 	reads := []string{"read.nodeswithtag", "read.families", "read.individual", "read.family", "read.pointer", "read.all"}
@@ -383,6 +383,13 @@ func applyEdit(ss *session, op HistOp) (applied bool) {
 	case "doc.addindividual":
 		ss.counter++
 		doc.AddIndividual(fmt.Sprintf("N%d", ss.counter), gedcom.NewNode(gedcom.TagName, "New /Person/", ""))
+	case "doc.addindividual.dup":
+		// a pointer that is already taken
+		i := nthIndividual(doc, op.A)
+		if i == nil {
+			return false
+		}
+		doc.AddIndividual(i.Pointer(), gedcom.NewNode(gedcom.TagName, "Same /Pointer/", ""))
 	case "doc.addfamily":
 		ss.counter++
 		doc.AddFamily(fmt.Sprintf("G%d", ss.counter))
@@ -638,7 +645,9 @@ func applyReadOnly(t *testing.T, cr *CaseResult, prop string, ss *session, other
 		})
 	case "ro.query":
 		guard(func() {
-			query := pick2s(op.A, `.Individuals | .Name | .String`, `.Individuals | { name: .Name | .String, born: .Birth | .String }`,
+			query := pick2s(op.A, `.Nodes | Only(.Pointer = "S1")`, `.Families | Only(.Pointer = "F2")`, `.Nodes | Last(1)`, `.Families | First(1)`,
+				`.Individuals | Only(.Pointer = "I2") | .Families`, `Combine(.Families, .Families) | Length`, `.Nodes | Only(.Tag = "FAM")`,
+				`.Individuals | .Name | .String`, `.Individuals | { name: .Name | .String, born: .Birth | .String }`,
 				`.Families | { husband: .Husband | .String, wife: .Wife | .String }`, `.Individuals | .Spouses`, `.Individuals | .Parents`,
 				`.Individuals | Only(.IsLiving) | .Age`, `.Individuals | NodesWithTagPath("BIRT", "DATE")`, `.Families | .Children`)
 			e, err := q.NewParser().ParseString(query)
@@ -753,9 +762,9 @@ func execHistory(t *testing.T, c *Case, cr *CaseResult, ops []HistOp, every bool
 				return false
 			}
 			if hasDuplicatePointers(ss.doc) {
-				// NodeByPointer is ambiguous then; the history ends without a verdict
-				cr.Probes["duplicate_pointers_end"]++
-				return false
+				// the index answers with the last record of that pointer, in
+				// the live document and in a rebuilt one alike
+				cr.Probes["duplicate_pointers"]++
 			}
 			live, err1 := lives[si], liveErrs[si]
 			want, err2 := views(model)
